@@ -35,6 +35,57 @@ impl IntoGameNode for TN {
     }
 }
 
+/// Another presentation of the same tree to the library: children are handed over through
+/// iterators whose size hints are not exact (the trait asks for `IntoIterator`, nothing more)
+pub struct TL(pub T, pub u8);
+
+pub struct Lazy<X> {
+    inner: std::vec::IntoIter<X>,
+    mode: u8,
+}
+
+impl<X> Iterator for Lazy<X> {
+    type Item = X;
+
+    fn next(&mut self) -> Option<X> {
+        self.inner.next()
+    }
+
+    fn size_hint(&self) -> (usize, Option<usize>) {
+        let len = self.inner.len();
+        match self.mode {
+            1 => (0, None),
+            2 => (len.min(1), None),
+            3 => (0, Some(len)),
+            _ => (len, Some(len)),
+        }
+    }
+}
+
+impl IntoGameNode for TL {
+    type PlayerInfo = String;
+    type Action = String;
+    type ChanceInfo = String;
+    type Outcomes = Lazy<(f64, TL)>;
+    type Actions = Lazy<(String, TL)>;
+
+    fn into_game_node(self) -> GameNode<Self> {
+        let mode = self.1;
+        match self.0 {
+            T::Term(pay) => GameNode::Terminal(pay),
+            T::Chance(info, outs) => GameNode::Chance(
+                info,
+                Lazy { inner: outs.into_iter().map(|(w, t)| (w, TL(t, mode))).collect::<Vec<_>>().into_iter(), mode },
+            ),
+            T::Player(p, info, acts) => GameNode::Player(
+                if p == 0 { PlayerNum::One } else { PlayerNum::Two },
+                info,
+                Lazy { inner: acts.into_iter().map(|(a, t)| (a, TL(t, mode))).collect::<Vec<_>>().into_iter(), mode },
+            ),
+        }
+    }
+}
+
 pub fn pnum(p: usize) -> PlayerNum {
     if p == 0 {
         PlayerNum::One
